@@ -428,6 +428,85 @@ theorem model_handle_single (retry max : Nat) (d : Doc) (o : Outcome) :
       | .mapping => ([(d, .indexError)], [])
       | .retryable => if retry = max then ([(d, .indexError)], []) else ([], [d]) := by
   cases o <;> simp [handle]
+
+/-- what one iteration of the response walk reads for document `d` with outcome `o`: an "index" item whose status, error
+object and error type are those of the outcome; `req` is the request at the item's position -/
+def bindItem (σ : Env) (d : Doc) (o : Outcome) : Env :=
+  let mp := σ "\"mapper_parsing_exception\""
+  upd (upd (upd (upd (upd (upd σ "action" (σ "\"index\"")) "requests[bulkIndexPos]" d) "req.Event" d)
+    "i.Status" (match o with | .ok => 200 | _ => 400))
+    "i.Error" (match o with | .ok => 0 | _ => 1))
+    "i.Error.Type" (match o with | .mapping => mp | _ => mp + 1)
+
+/-- the two nested `for … range` loops of handleErrorResponses over a response with one "index" item per request: the body once
+per item, in order; `ReturnEvent` / `ReturnError` answer the item's document, `retryRequests = append(retryRequests, req)`
+carries it to the next attempt -/
+def rangeItems (body : S) : List (Doc × Outcome) → Env → List (Doc × Ans) × List Doc
+  | [], _ => ([], [])
+  | (d, o) :: rest, σ =>
+    let r := run body (bindItem σ d o)
+    let k := rangeItems body rest r.env
+    ((if r.calls.any (fun c => c.1 == "req.Event.ReturnEvent") then [(d, Ans.success)]
+      else if r.calls.any (fun c => c.1 == "req.Event.ReturnError") then [(d, Ans.indexError)] else []) ++ k.1,
+     (if r.calls.any (fun c => c.1 == "append retryRequests") then [d] else []) ++ k.2)
+
+theorem esItemBody_frame (σ : Env) (x : String) (h1 : x ≠ "req") (h2 : x ≠ "isTypeConflict") (h3 : x ≠ "e") :
+    (run Trans.esItemBody σ).env x = σ x := by
+  by_cases a0 : σ "action" = σ "\"index\"" <;>
+  by_cases a1 : 200 ≤ σ "i.Status" <;> by_cases a2 : σ "i.Status" ≤ 299 <;> by_cases a3 : σ "i.Error" = 0 <;>
+  by_cases a4 : σ "i.Error.Type" = σ "\"mapper_parsing_exception\"" <;> by_cases a5 : σ "retryCount" = σ "c.maxRetries" <;>
+  minigo_simp [Trans.esItemBody, a0, a1, a2, a3, a4, a5, h1, h2, h3]
+
+/-- **the response walk of handleErrorResponses = the model's `handle`**: for every bulk response (one outcome per document)
+the documents answered now, with what, in order, are `(handle retry max l).1`; the documents appended to the retry slice are
+the retryable ones — which, unless this was the last allowed attempt (then the slice is dropped, see `translated_esTail`), are
+`(handle retry max l).2` -/
+theorem translated_esItems_loop (retry max : Nat) (l : List (Doc × Outcome)) : ∀ σ : Env,
+    σ "retryCount" = retry → σ "c.maxRetries" = max →
+    (rangeItems Trans.esItemBody l σ).1 = (handle retry max l).1 ∧
+    (retry ≠ max → (rangeItems Trans.esItemBody l σ).2 = (handle retry max l).2) := by
+  induction l with
+  | nil => intro σ _ _; simp [rangeItems, handle]
+  | cons x rest ih =>
+    obtain ⟨d, o⟩ := x
+    intro σ hr hm
+    have f1 := esItemBody_frame (bindItem σ d o) "retryCount" (by decide) (by decide) (by decide)
+    have f2 := esItemBody_frame (bindItem σ d o) "c.maxRetries" (by decide) (by decide) (by decide)
+    have b1 : bindItem σ d o "retryCount" = retry := by simp [bindItem, hr]
+    have b2 : bindItem σ d o "c.maxRetries" = max := by simp [bindItem, hm]
+    have ih' := ih (run Trans.esItemBody (bindItem σ d o)).env (by rw [f1, b1]) (by rw [f2, b2])
+    have hidx : bindItem σ d o "action" = bindItem σ d o "\"index\"" := by simp [bindItem]
+    have hb := (translated_esItemBody (bindItem σ d o) hidx).2
+    have hrm : (bindItem σ d o "retryCount" = bindItem σ d o "c.maxRetries") ↔ retry = max := by
+      rw [b1, b2]; exact Int.ofNat_inj
+    simp only [rangeItems, handle]
+    rw [hb]
+    cases o with
+    | ok =>
+      have : esOutcome (bindItem σ d Outcome.ok) = some .ok := by simp [esOutcome, bindItem]
+      simp [this, ih'.1]; exact ih'.2
+    | mapping =>
+      have : esOutcome (bindItem σ d Outcome.mapping) = some .mapping := by simp [esOutcome, bindItem]
+      simp [this, esErrCalls, ih'.1]; exact ih'.2
+    | retryable =>
+      have : esOutcome (bindItem σ d Outcome.retryable) = some .retryable := by
+        simp [esOutcome, bindItem]; omega
+      by_cases hq : retry = max
+      · have hq' := hrm.mpr hq
+        simp [this, esErrCalls, hq, hq', ih'.1]
+      · have hq' : ¬ (bindItem σ d Outcome.retryable "retryCount" = bindItem σ d Outcome.retryable "c.maxRetries") :=
+          fun e => hq (hrm.mp e)
+        simp [this, esErrCalls, hq, hq', ih'.1, ih'.2 hq]
+
+/-- after the walk: at the last allowed attempt ErrMaxRetries is returned and the retry slice is dropped (nothing is sent
+again); otherwise the slice goes to `retryBulkIndex` with the retry count increased by one, on another goroutine -/
+theorem translated_esTail (σ : Env) :
+    obs Trans.esTail σ =
+      if σ "retryCount" = σ "c.maxRetries" then
+        ⟨[("c.metrics.BulkMaxRetriesReached.Add", [σ "float64(len(res.Failed()))"])], some [σ "ErrMaxRetries"], false⟩
+      else ⟨[("go c.retryBulkIndex", [σ "retryRequests", wrap64 (σ "retryCount" + 1)])], some [0], false⟩ := by
+  by_cases h : σ "retryCount" = σ "c.maxRetries" <;> minigo_simp [Trans.esTail, h]
+
 end Translated
 
 theorem closure_unchanged : GeneratedClo.C14 = ExpectedClo.C14 := by rfl
